@@ -149,12 +149,17 @@ class Facts:
         raw = json.load(open(path))
         self.raw = raw
         self.load_s = time.time() - t
-        from . import mir
+        from . import mir, inline
+        # functions the rules have never seen (new private helpers of a refactoring) are spliced into their callers
+        try:
+            rfns, rbuilt, self.inline_report = inline.inline_unknown(raw["fns"], raw.get("built", []), inline.load_inventory())
+        except Exception as e:      # never let the convenience break the analysis: judge the functions as they are
+            rfns, rbuilt, self.inline_report = raw["fns"], raw.get("built", []), {"error": repr(e)}
         self.fns = {}
-        for f in raw["fns"]:
+        for f in rfns:
             self.fns[f["key"]] = mir.Body(f, self)
         self.built = {}
-        for f in raw.get("built", []):
+        for f in rbuilt:
             self.built[f["key"]] = mir.Body(f, self)
         self.structs = {s["key"]: s for s in raw["structs"]}
         self.enums = {s["key"]: s for s in raw["enums"]}
@@ -167,6 +172,8 @@ class Facts:
             self._by_name.setdefault(b.name, []).append(b)
             if b.raw.get("owner"):
                 self._closures.setdefault(b.raw["owner"], []).append(b)
+                for o in b.raw.get("also_owned_by", []):
+                    self._closures.setdefault(o, []).append(b)
         # functions whose body merely builds a coroutine object (async fn / async block wrappers)
         self.async_fns = set(b.raw.get("parent") for b in self.built.values())
 
